@@ -85,6 +85,7 @@ package ct
 
 //@ func LeafHashForLeaf
 //@ props C04 C06
+//@ pure
 //@ site tls.Marshal#1 as m
 //@ site sha256.Sum256#1 as sha
 //@ requires leaf != nil
